@@ -23,7 +23,7 @@ PROP = "C02"
 
 EVIDENCE = {
     "rule": "one evaluation = one scenario document (mesh, region flags, field kind, form, integrand seed, pool / thread schedules, fault); non-trivial = at least one parallel evaluation ran under a simulated pool with >1 job or under a thread schedule with >= 2 context switches, or a worker fault fired; distinct = distinct (field kind, form kind, flags, pool configuration or schedule digest)",
-    "probes_expected": ["pool:njobs>1", "pool:fallback-np-einsum", "threads:switches", "fault:pool_job", "fault:thread_body", "uniform-broadcast", "absent-block", "out-reuse", "values-passthrough", "mode3", "hess-form", "form-after-region-reload", "shared-test-field-forms", "assembled-again-after-failure"],
+    "probes_expected": ["pool:njobs>1", "pool:fallback-np-einsum", "threads:switches", "fault:pool_job", "fault:thread_body", "uniform-broadcast", "absent-block", "out-reuse", "values-passthrough", "mode3", "hess-form", "form-after-region-reload", "shared-test-field-forms", "assembled-again-after-failure", "form-after-geometry-update"],
     "components": {
         "real": ["felupe.assembly (all of it)", "einsumt chunking logic", "numpy einsum", "scipy.sparse"],
         "simulated": ["einsumt thread pool (SimPool: size knob, seeded job order, failing job)", "threading.Thread in the expression API (SimThreads: baton passing at sys.monitoring LINE / STORE_SUBSCR events)"],
@@ -79,6 +79,10 @@ def generate(seed, tier, k):
             a["pools"].append(p)
         if r.random() < 0.25:
             a["pools"][-1]["fail"] = r.randrange(0, 4)
+        # history: the geometry is updated in place, the leading field is created anew on the
+        # reloaded region, the other field objects of the container are kept
+        a["geometry_update"] = r.random() < (0.5 if fk.endswith("axi") else 0.2) and not doc["region"].get("uniform")
+        a["geometry_seed"] = r.randrange(1 << 30)
         doc["array"] = a
     else:
         kinds = ["gradgrad", "gradgrad", "valval", "gradval", "lin-grad", "lin-val"]
@@ -322,6 +326,37 @@ def run_array(doc, log):
             if not ok:
                 raise Violation(PROP, "ref-sum", f"rectangular (u, dual) form with a {'disconnected' if disc else 'connected'} trial field, created after other forms on the same test field, differs from the defining sum (rel {rel:.2e})", site="IntegralForm.assemble[shared-test-field]")
         log.count("shared-test-field-forms")
+    if a.get("geometry_update") and not a.get("broadcast"):
+        prng = np.random.default_rng(a["geometry_seed"])
+        span = mesh.points.max(0) - mesh.points.min(0)
+        newp = mesh.points * (1.0 + 0.3 * prng.uniform(0.2, 1.0)) + 0.04 * span.min() / max(doc["mesh"]["n"]) * prng.uniform(-1, 1, mesh.points.shape)
+        if doc["fieldkind"] in ("Axi", "Mixed3axi"):
+            onaxis = np.abs(mesh.points[:, 1]) < 1e-12
+            newp[onaxis, 1] = 0.0
+        mesh.update(points=newp, callback=region.reload)
+        if np.any(region.dV <= 0):
+            raise Discard("invalid-mesh-after-reload")
+        f0 = fields[0]
+        new0 = type(f0)(region, dim=f0.dim, values=f0.values.copy())
+        cont2 = fem.FieldContainer([new0, *fields[1:]])
+        fl2 = cont2.fields
+        if bil:
+            ref2 = refmodel.assemble_bilinear(fl2, fl2, region.dV, funs, grad_v, grad_u, [(int(i), int(j)) for i, j in pairs], symmetric_fill=(nf > 1 and a["mode"] == 2))
+        else:
+            ref2 = refmodel.assemble_linear(fl2, region.dV, funs, grad_v)
+        site2 = f"IntegralForm.assemble[{doc['fieldkind']},{a['form']},mode={a.get('mode')},after-geometry-update]"
+        try:
+            got2 = dense(fem.IntegralForm([None if f is None else f.copy() for f in funs], cont2, region.dV, u=cont2 if bil else None, **kw).assemble(parallel=False, block=block))
+        except Exception as e:
+            from ..kernel import origin
+
+            if origin(e) == "harness":
+                raise
+            raise Violation(PROP, "ref-sum", f"{site2} raised {type(e).__name__}: {e}", site=site2)
+        ok, rel = close_exact_twin(got2, ref2, rtol=1e-11, atol=1e-12 * (float(np.abs(ref2).max()) + 1e-300))
+        if not ok:
+            raise Violation(PROP, "ref-sum", f"{site2}: a form on a container made of a new leading field (reloaded region) and the kept other fields differs from the defining sum on the new geometry (rel {rel:.2e})", site=site2)
+        log.count("form-after-geometry-update")
     return {
         "signature": f"array|{doc['fieldkind']}|{a['form']}|{a.get('mode')}|{a.get('grad_v')}{a.get('grad_u')}|{mesh.cell_type}|u{int(bool(doc['region'].get('uniform')))}b{int(bool(a.get('broadcast')))}|{sorted(set(sig))}|{a.get('absent')}|o{int(bool(a.get('out_reuse')))}v{int(bool(a.get('values_passthrough')))}",
         "nontrivial": any(s[1] > 1 for s in sig) or bool(fired),
